@@ -144,6 +144,47 @@ pub fn extract(file: &syn::File, sels: &[String], rel: &str, soft: bool) -> Vec<
         let mut scope: Vec<Item> = file.items.clone();
         let mut prefix = String::new();
         for c in &parts[..parts.len() - 1] {
+            // a container may also be a method: `Type::method` or `impl Trait for Type::method`
+            if c.contains("::") || c.starts_with("impl ") {
+                let (isel, _) = parse_last(c);
+                let mut inner: Option<Vec<Item>> = None;
+                if let Some(isel) = isel {
+                    for it in scope.iter() {
+                        if let Item::Impl(im) = it {
+                            if rules::has_cfg_test_or_feature(&im.attrs) || !impl_matches(im, &isel) {
+                                continue;
+                            }
+                            for ii in im.items.iter() {
+                                if let ImplItem::Fn(f) = ii {
+                                    if isel.method.as_deref() == Some(f.sig.ident.to_string().as_str()) {
+                                        inner = Some(
+                                            f.block
+                                                .stmts
+                                                .iter()
+                                                .filter_map(|s| if let Stmt::Item(it) = s { Some(it.clone()) } else { None })
+                                                .collect(),
+                                        );
+                                    }
+                                }
+                            }
+                        }
+                    }
+                }
+                match inner {
+                    Some(ch) => {
+                        scope = ch;
+                        prefix.push_str(c);
+                        prefix.push('/');
+                        continue;
+                    }
+                    None => {
+                        if soft {
+                            return Vec::new();
+                        }
+                        die(&format!("{}: container `{}` of selector `{}` not found (lost anchor)", rel, c, sel))
+                    }
+                }
+            }
             let found = scope
                 .iter()
                 .find(|i| item_ident(i).as_deref() == Some(*c) && !rules::has_cfg_test_or_feature(item_attrs(i)));
